@@ -19,6 +19,8 @@ import time
 
 VERIF = os.path.dirname(os.path.dirname(os.path.abspath(__file__)))
 REPO = os.environ.get("VERIF_REPO", "/repo")
+# where evidence/ and replays/ are written; only mutant trials (tools/try_mutant.sh) point this elsewhere
+OUT = os.environ.get("VERIF_OUT", VERIF)
 GUARD = "NANOLANG_VERIF"
 NCPU = int(os.environ.get("VERIF_JOBS", str(os.cpu_count() or 4)))
 
@@ -244,7 +246,7 @@ class Report:
         if h in self._seen_viol:
             return None
         self._seen_viol.add(h)
-        d = os.path.join(VERIF, "replays", self.prop, h)
+        d = os.path.join(OUT, "replays", self.prop, h)
         os.makedirs(d, exist_ok=True)
         for name, content in files.items():
             mode = "wb" if isinstance(content, (bytes, bytearray)) else "w"
@@ -276,8 +278,8 @@ class Report:
         ev = {"property_id": self.prop, "tier": self.tier, "seed": self.seed, "level": self.level,
               "coverage": cov, "assumptions": self.assumptions,
               "wall_s": round(time.time() - self.t0, 2), "violations": len(self.violations)}
-        os.makedirs(os.path.join(VERIF, "evidence"), exist_ok=True)
-        path = os.path.join(VERIF, "evidence", self.prop + ".json")
+        os.makedirs(os.path.join(OUT, "evidence"), exist_ok=True)
+        path = os.path.join(OUT, "evidence", self.prop + ".json")
         tmp = path + ".tmp"
         with open(tmp, "w") as f:
             json.dump(ev, f, indent=1, sort_keys=True, default=str)
